@@ -360,6 +360,18 @@ class Extractor {
         o["mk"] = "field";
       } else if (isa<CXXMethodDecl>(MD)) {
         o["mk"] = "method";
+      } else if (auto *SV = dyn_cast<VarDecl>(MD)) {
+        // a static data member reached through an object (gs.loops): it is the one shared object all the same
+        o["mk"] = "static_member";
+        if (SV->hasGlobalStorage() && inRoot(SV) && curGlobalRefs) {
+          json::Object g;
+          g["q"] = qname(SV);
+          g["loc"] = loc(ME->getExprLoc());
+          bool mut = false;
+          if (curMut) mut = curMut->isMutated(ME);
+          g["mutated"] = mut;
+          curGlobalRefs->push_back(std::move(g));
+        }
       } else {
         o["mk"] = "other";
       }
